@@ -18,6 +18,7 @@ Section TyInd.
   Hypothesis HWrap : forall a, P a -> P (TWrap a).
   Hypothesis HSet : forall a, P a -> P (TSet a).
   Hypothesis HDict : forall a, P a -> P (TDict a).
+  Hypothesis HMap : forall k a, P k -> P a -> P (TMap k a).
   Hypothesis HTuple : forall ts, Forall P ts -> P (TTuple ts).
   Hypothesis HUnion : forall ts, Forall P ts -> P (TUnion ts).
   Hypothesis HClass : forall c, P (TClass c).
@@ -26,6 +27,7 @@ Section TyInd.
   Hypothesis HEnum : forall lit vals, P (TEnum lit vals).
   Hypothesis HTyped : forall names ts req, Forall P ts -> P (TTyped names ts req).
   Hypothesis HOpaque : forall n, P (TOpaque n).
+  Hypothesis HAnn : forall cs a, P a -> P (TAnn cs a).
   Fixpoint ty_ind' (t: ty) : P t :=
     match t with
     | TInt => HInt | TFloat => HFloat | TBool => HBool | TStr => HStr | TNone => HNone | TAny => HAny
@@ -33,6 +35,7 @@ Section TyInd.
     | TWrap a => HWrap a (ty_ind' a)
     | TSet a => HSet a (ty_ind' a)
     | TDict a => HDict a (ty_ind' a)
+    | TMap k a => HMap k a (ty_ind' k) (ty_ind' a)
     | TTuple ts => HTuple ts ((fix go (l: list ty) : Forall P l :=
                                  match l with [] => Forall_nil _ | x :: r => Forall_cons _ (ty_ind' x) (go r) end) ts)
     | TUnion ts => HUnion ts ((fix go (l: list ty) : Forall P l :=
@@ -45,6 +48,7 @@ Section TyInd.
     | TTyped names ts req => HTyped names ts req ((fix go (l: list ty) : Forall P l :=
                                  match l with [] => Forall_nil _ | x :: r => Forall_cons _ (ty_ind' x) (go r) end) ts)
     | TOpaque n => HOpaque n
+    | TAnn cs a => HAnn cs a (ty_ind' a)
     end.
 End TyInd.
 
@@ -75,8 +79,16 @@ Section Unfold.
   Proof. destruct fuel; reflexivity. Qed.
   Lemma sf_dict fuel a st :
     SF fuel (TDict a) st = match SF fuel a st with
-                           | SOk (s, st1) => SOk (dict_sk (or_none a s), st1)
+                           | SOk (s, st1) => SOk (dict_sk (or_none a s) (Some (render (ty_sk "string"))), st1)
                            | SFuel => SFuel | SErr => SErr end.
+  Proof. destruct fuel; reflexivity. Qed.
+  Lemma sf_map fuel k a st :
+    SF fuel (TMap k a) st = match SF fuel a st with
+                            | SOk (s, st1) =>
+                                match SF fuel k st1 with
+                                | SOk (sk', st2) => SOk (dict_sk (or_none a s) (or_none k sk'), st2)
+                                | SFuel => SFuel | SErr => SErr end
+                            | SFuel => SFuel | SErr => SErr end.
   Proof. destruct fuel; reflexivity. Qed.
   Lemma sf_tuple fuel ts st :
     SF fuel (TTuple ts) st = match map_st (SF fuel) ts [] st with
@@ -103,6 +115,14 @@ Section Unfold.
     SF fuel (TLeaf tp fmt pat) st =
     if is_type_name tp && match fmt with Some f => str_mem f formats | None => true end
     then SOk (leaf_sk tp fmt pat, st) else SErr.
+  Proof. destruct fuel; reflexivity. Qed.
+  Lemma sf_ann fuel cs a st :
+    SF fuel (TAnn cs a) st =
+    if forallb ann_ok cs
+    then match SF fuel a st with
+         | SOk (s, st1) => SOk (apply_anns cs (akind_of a) s, st1)
+         | SFuel => SFuel | SErr => SErr end
+    else SErr.
   Proof. destruct fuel; reflexivity. Qed.
   Lemma sf_opaque fuel n st : SF fuel (TOpaque n) st = SErr.
   Proof. destruct fuel; reflexivity. Qed.
@@ -234,7 +254,7 @@ Section Generic.
   Hypothesis G_ty : forall ks n, is_type_name n = true -> Sp ks (ty_sk n).
   Hypothesis G_any : forall ks, Sp ks sk0.
   Hypothesis G_arr : forall ks o u, (forall d, o = Some d -> G ks d) -> Sp ks (arr_sk o u).
-  Hypothesis G_dict : forall ks o, (forall d, o = Some d -> G ks d) -> Sp ks (dict_sk o).
+  Hypothesis G_dict : forall ks o p, (forall d, o = Some d -> G ks d) -> (forall d, p = Some d -> G ks d) -> Sp ks (dict_sk o p).
   Hypothesis G_tuple : forall ks l, Forall (G ks) l -> Sp ks (tuple_sk l).
   Hypothesis G_union : forall ks l, l <> [] -> Forall (G ks) l -> Sp ks (union_sk l).
   Hypothesis G_ref : forall ks c, In c ks -> Sp ks (ref_sk (cfg.(c_prefix) ++ "/" ++ c)).
@@ -244,6 +264,7 @@ Section Generic.
       is_type_name tp = true -> match fmt with Some f => str_mem f formats | None => true end = true -> Sp ks (leaf_sk tp fmt pat).
   Hypothesis G_enum : forall ks lit vals, Sp ks (enum_sk lit vals).
   Hypothesis G_descr : forall ks s d, Sp ks s -> Sp ks (set_description s d).
+  Hypothesis G_ann : forall ks cs k s, forallb ann_ok cs = true -> Sp ks s -> Sp ks (apply_anns cs k s).
   Hypothesis G_ntobj : forall ks props req,
       (forall k d, In (k, d) props -> G ks d) -> NoDup req -> Sp ks (ntobj_sk props req).
   Hypothesis G_default : forall ks s d, Sp ks s -> Sp ks (set_default s d).
@@ -325,7 +346,13 @@ Section Generic.
         apply G_arr. apply or_none_ok. apply S_G. exact B.
       + rewrite sf_dict in Hs. destruct (schema_fuel E cfg 0 t st) as [[s1 st1]| |] eqn:E1; try discriminate.
         inversion Hs; subst. destruct (IHt _ _ _ E1 HI) as (A & B & C). repeat split; auto.
-        apply G_dict. apply or_none_ok. apply S_G. exact B.
+        apply G_dict; [apply or_none_ok; apply S_G; exact B|].
+        intros d Hd. inversion Hd; subst. apply S_G. apply G_ty. reflexivity.
+      + rewrite sf_map in Hs. destruct (schema_fuel E cfg 0 t2 st) as [[s1 st1]| |] eqn:E1; try discriminate.
+        destruct (schema_fuel E cfg 0 t1 st1) as [[s2 st2]| |] eqn:E2; try discriminate.
+        inversion Hs; subst. destruct (IHt2 _ _ _ E1 HI) as (A & B & C). destruct (IHt1 _ _ _ E2 A) as (A2 & B2 & C2).
+        repeat split; auto; [|eapply incl_tran; eauto].
+        apply G_dict; [apply or_none_ok; apply S_G; eapply S_mono; eauto|apply or_none_ok; apply S_G; exact B2].
       + rewrite sf_tuple in Hs. destruct (map_st (schema_fuel E cfg 0) ts [] st) as [[ss st1]| |] eqn:E1; try discriminate.
         inversion Hs; subst. destruct (map_st_ok _ _ H _ _ _ _ E1 HI) as (A & B & C & _). repeat split; auto.
       + rewrite sf_union in Hs. destruct ts as [|t0 tr]; try discriminate.
@@ -355,6 +382,9 @@ Section Generic.
         apply G_obj; [|apply isort_nodup; apply req_keys_nodup; apply str_nodup_true; exact Eg1].
         intros k d Hin. apply in_combine_r in Hin. rewrite Forall_forall in B. apply B. exact Hin.
       + rewrite sf_opaque in Hs. discriminate.
+      + rewrite sf_ann in Hs. destruct (forallb ann_ok cs) eqn:Ea; try discriminate.
+        destruct (schema_fuel E cfg 0 t st) as [[s1 st1]| |] eqn:E1; try discriminate.
+        inversion Hs; subst. destruct (IHt _ _ _ E1 HI) as (A & B & C). repeat split; auto.
     - intros t. induction t using ty_ind'; intros st s st' Hs HI;
         try (destruct (sf_scalar E cfg (S fuel) st) as (H1 & H2 & H3 & H4 & H5 & H6);
              first [rewrite H1 in Hs | rewrite H2 in Hs | rewrite H3 in Hs | rewrite H4 in Hs | rewrite H5 in Hs | rewrite H6 in Hs];
@@ -368,7 +398,13 @@ Section Generic.
         apply G_arr. apply or_none_ok. apply S_G. exact B.
       + rewrite sf_dict in Hs. destruct (schema_fuel E cfg (S fuel) t st) as [[s1 st1]| |] eqn:E1; try discriminate.
         inversion Hs; subst. destruct (IHt _ _ _ E1 HI) as (A & B & C). repeat split; auto.
-        apply G_dict. apply or_none_ok. apply S_G. exact B.
+        apply G_dict; [apply or_none_ok; apply S_G; exact B|].
+        intros d Hd. inversion Hd; subst. apply S_G. apply G_ty. reflexivity.
+      + rewrite sf_map in Hs. destruct (schema_fuel E cfg (S fuel) t2 st) as [[s1 st1]| |] eqn:E1; try discriminate.
+        destruct (schema_fuel E cfg (S fuel) t1 st1) as [[s2 st2]| |] eqn:E2; try discriminate.
+        inversion Hs; subst. destruct (IHt2 _ _ _ E1 HI) as (A & B & C). destruct (IHt1 _ _ _ E2 A) as (A2 & B2 & C2).
+        repeat split; auto; [|eapply incl_tran; eauto].
+        apply G_dict; [apply or_none_ok; apply S_G; eapply S_mono; eauto|apply or_none_ok; apply S_G; exact B2].
       + rewrite sf_tuple in Hs. destruct (map_st (schema_fuel E cfg (S fuel)) ts [] st) as [[ss st1]| |] eqn:E1; try discriminate.
         inversion Hs; subst. destruct (map_st_ok _ _ H _ _ _ _ E1 HI) as (A & B & C & _). repeat split; auto.
       + rewrite sf_union in Hs. destruct ts as [|t0 tr]; try discriminate.
@@ -411,6 +447,9 @@ Section Generic.
         apply G_obj; [|apply isort_nodup; apply req_keys_nodup; apply str_nodup_true; exact Eg1].
         intros k d Hin. apply in_combine_r in Hin. rewrite Forall_forall in B. apply B. exact Hin.
       + rewrite sf_opaque in Hs. discriminate.
+      + rewrite sf_ann in Hs. destruct (forallb ann_ok cs) eqn:Ea; try discriminate.
+        destruct (schema_fuel E cfg (S fuel) t st) as [[s1 st1]| |] eqn:E1; try discriminate.
+        inversion Hs; subst. destruct (IHt _ _ _ E1 HI) as (A & B & C). repeat split; auto.
   Qed.
 
   Theorem build_inv fuel wd uri t st d st' :
